@@ -221,7 +221,7 @@ def run_graph(spec, schedule):
         while q is not None:
             a.add(f"G{q}")
             q = spec["parents"][q]
-        nesting[f"G{i}"] = a
+        nesting[f"G{i}"] = {lab: {()} for lab in a}  # all groups of the direct drive live at the root path
     asm = Assembler(nesting)
     out = {"end": None}
 
